@@ -274,7 +274,11 @@ impl StringGenerator {
                 sgr_tc.push(cur_fore_rgb.1);
                 sgr_tc.push(cur_fore_rgb.2);
             }
-            state.fg_idx = fg;
+            // the number of the DOS colour the terminal shows now (bold adds 8), none for xterm / rgb colours
+            state.fg_idx = match fore_idx {
+                Some(idx) => idx as u32 + if state.is_bold { 8 } else { 0 },
+                None => u32::MAX / 2,
+            };
             state.fg = cur_fore_color;
         }
         if cur_back_rgb != state.bg.get_rgb() {
